@@ -260,8 +260,9 @@ def run(ctx):
     rt = gen.Rng(ctx.seed * 1000003 + 203)
     for i in range(4 if ctx.quick else 80):
         ka = (["new", "set+state", "claim_oldest", "new+state", "sequence", "prune"][i % 6],)
-        explore2.explore(ctx, "C02", rt.fork(), kindsA=ka, kindsB=("new", "set", "claim_oldest", "new+state"), max_points=(6 if ctx.quick else 40), state_cmds=8,
-                         torn=(i % 3 != 2), missing_lock=(i % 3 == 2))
+        kb = ("new", "new+state") if i % 2 == 0 else ("new", "set", "claim_oldest", "new+state")
+        explore2.explore(ctx, "C02", rt.fork(), kindsA=ka, kindsB=kb, max_points=(8 if ctx.quick else 40), state_cmds=8,
+                         torn=(i % 3 != 2), missing_lock=(i % 3 == 2), with_stat=(i % 3 == 2))
     # an acknowledged write is in the log: when the operating system refuses or cuts short the write (ENOSPC, EIO, file size limit), the command
     # must not report success — the next command would decide on a state its predecessor was told it had changed
     from . import c10
